@@ -265,10 +265,98 @@ def cm_world():
     from engine import cryptomodel as cm
     return cm.World()
 
+class CommentsPart(Harness):
+    """comments (cell, author, text) through the comments part: author table built from an unordered set, author ids, text runs"""
+    name = 'comments_part.write_read'; property_id = 'C06'
+    entry = ['writer::xlsx::comment::write', 'reader::xlsx::comment::read', 'structs::comment::Comment::set_attributes', 'structs::rich_text::RichText::write_to_text', 'structs::rich_text::RichText::set_attributes_text']
+    classes = {}
+    def __init__(self, tier):
+        self.n = 2
+        self.maxn = 1 if tier == 'quick' else 2
+        self.doc = 'a worksheet with two comments at symbolic distinct cells, authors and texts of 0..%d symbolic characters (equal authors allowed), written by the real writer::xlsx::comment::write (author table collected through a HashSet whose iteration order is chosen by the solver) and read back by the real reader::xlsx::comment::read from the recorded events: each cell has its comment again with the same author and the same text' % self.maxn
+        self.bounds = {'comments': 2, 'cells': 'A1..C3, distinct', 'author_chars': [0, self.maxn], 'text_chars': [0, self.maxn], 'alphabet': ['a', 'b', '&', ' '], 'hash_set_order': 'every permutation', 'vml part': 'outside (anchors and shapes)'}
+    def setup(self, it):
+        from engine import xmlmodel, cryptomodel as cm
+        cm.install(it); cm.install_digests(it); xmlmodel.install(it); xmlmodel.install_events(it)
+    def text(self, ctx, tag):
+        n = ctx.sym_int(tag + 'len', 0, self.maxn); n = next(k for k in range(self.maxn + 1) if ctx.branch(n == k))
+        cs = [ctx.sym_int('%s%d' % (tag, i), 32, 98) for i in range(n)]
+        for c in cs: ctx.define(z3.Or(c == 97, c == 98, c == 38, c == 32))
+        return cs
+    def comments_of(self, it, ws):
+        out = []
+        for c in deref_all(it.call(WS + 'get_comments', [ws])):
+            cr = Ref(Box_(c))
+            co = it.call('structs::comment::Comment::get_coordinate', [cr])
+            col = deref_all(it.call('structs::coordinate::Coordinate::get_col_num', [co])); row = deref_all(it.call('structs::coordinate::Coordinate::get_row_num', [co]))
+            au = deref_all(it.call('structs::comment::Comment::get_author', [cr])).chars
+            tx = it.call('structs::rich_text::RichText::get_text', [it.call('structs::comment::Comment::get_text', [cr])])
+            tx = deref_all(tx.fields[0]).chars if isinstance(tx, Adt) else deref_all(tx).chars
+            out.append((col, row, list(au), list(tx)))
+        return out
+    def run(self, it, ctx, res):
+        from engine import xmlmodel
+        from harness.c17 import chars_eq
+        it.world = cm_world(); it.hash_order = 'symbolic'; it._hm_iter = 0
+        pos = [(ctx.sym_int('c%d' % i, 1, 3), ctx.sym_int('r%d' % i, 1, 3)) for i in range(self.n)]
+        ctx.assume(z3.Or(pos[0][0] != pos[1][0], pos[0][1] != pos[1][1]))
+        spec = [(self.text(ctx, 'au%d_' % i), self.text(ctx, 'tx%d_' % i)) for i in range(self.n)]
+        captured = []; info = {}
+        try:
+            ws = new_sheet(it)
+            for i in range(self.n):
+                c = Box_(it.call('<structs::comment::Comment as std::default::Default>::default', []))
+                it.call('structs::comment::Comment::new_comment::<(u32, u32)>', [Ref(c), [pos[i][0], pos[i][1]]])
+                it.call('structs::comment::Comment::set_author::<&str>', [Ref(c), sref(SStr(spec[i][0]))])
+                it.call('structs::comment::Comment::set_text_string::<&str>', [Ref(c), sref(SStr(spec[i][1]))])
+                it.call(WS + 'add_comments', [Ref(ws), c.v])
+            before = self.comments_of(it, Ref(ws))
+            it.stub_patterns = [(re.compile(r'quick_xml::Writer::<.*>::new'), lambda it_, callee, *a: xmlmodel.Recorder()),
+                    (re.compile(r"quick_xml::events::BytesDecl::<'_>::new"), lambda it_, callee, *a: 'DECL'),
+                    (re.compile(r'std::io::Cursor::<.*>::new'), lambda it_, callee, v: v),
+                    (re.compile(r'writer::driver::write_new_line::<.*>'), lambda it_, callee, *a: []),
+                    (re.compile(r'structs::writer_manager::WriterManager::<.*>::add_file_at_comment(::<.*>)?'), lambda it_, callee, wm, writer: (captured.append(deref_all(writer)), OK(1))[1])]
+            r = it.call('writer::xlsx::comment::write::<std::io::Cursor<std::vec::Vec<u8>>>', [Ref(ws), Ref(Box_('WRITERMNG'))])
+            if r.variant != 0 or len(captured) != 1: self.fail(ctx, res, 'comments-part-written', 'no part', info=info); return
+            evs = [e for e in captured[0].events if (e.variant if isinstance(e.variant, str) else xmlmodel.event_order()[e.variant]) != 'Decl']
+            it.stub_patterns = [
+                (re.compile(r'structs::raw::raw_file::RawFile::get_file_data'), lambda it_, callee, *a: Ref(Box_([]))),
+                (re.compile(r'std::io::Cursor::<.*>::new'), lambda it_, callee, v: v),
+                (re.compile(r'quick_xml::Reader::<.*>::from_reader'), lambda it_, callee, x: xmlmodel.XmlReader(evs, trim=True)),
+            ]
+            ws2 = new_sheet(it)
+            rr = it.call('reader::xlsx::comment::read', [Ref(ws2), Ref(Box_('RAWFILE'))])
+            if rr.variant != 0: self.fail(ctx, res, 'comments-part-read', 'Err', info=info); return
+            after = self.comments_of(it, Ref(ws2))
+        except Panic as e:
+            self.fail(ctx, res, 'no-panic', str(e), info=info); return
+        finally:
+            it.stub_patterns = []; it.hash_order = 'insertion'
+        self.oblige(ctx, res, 'same-number-of-comments', len(after) == len(before), info=dict(info, before=len(before), after=len(after)))
+        if len(after) != len(before): return
+        eqs = lambda x, y: (len(x) == len(y)) and (chars_eq(x, y) if x else True)
+        from harness.rt import conj
+        for (c, r_, au, tx) in before:
+            alts = [conj([a[0] == c, a[1] == r_, eqs(a[2], au), eqs(a[3], tx)]) for a in after]
+            alts = [a for a in alts if a is not False]
+            self.oblige(ctx, res, 'comment-keeps-cell-author-and-text', (True if any(a is True for a in alts) else (z3.Or(*alts) if alts else False)), info=info)
+    def case_of(self, v):
+        m = v['model']; f = lambda t: ''.join(chr(m.get('%s%d' % (t, i), 97)) for i in range(m.get(t + 'len', 0)))
+        c = {'comments': [{'cell': [m['c%d' % i], m['r%d' % i]], 'author': f('au%d_' % i), 'text': f('tx%d_' % i)} for i in range(self.n)], 'oblig': v['oblig']}
+        c['show'] = dict(c); return c
+    def confirm(self, case, profile):
+        spec = ';'.join('%d,%d,%s,%s' % (c['cell'][0], c['cell'][1], c['author'].encode().hex() or '-', c['text'].encode().hex() or '-') for c in case['comments'])
+        for _ in range(6):          # the author table depends on the iteration order of a real HashSet: repeat the save
+            r = native.run_cases([['comments_roundtrip', spec]], profile, timeout_each=60)[0]
+            if r[0] != 'ok': return True, 'comments %r -> %r' % (case['comments'], r)
+            before, after = native.unhx(r[1][0]), native.unhx(r[1][1])
+            if before != after: return True, 'comments before save %r, after reload %r' % (before, after)
+        return False, 'no difference in 6 native saves'
+
 def harnesses(tier):
     from harness import rt
-    if tier == 'quick': return [Hyperlinks(tier), PartAllocation(tier), WorkbookPart(tier)] + rt.harnesses_for('C06', tier)
+    if tier == 'quick': return [Hyperlinks(tier), PartAllocation(tier), WorkbookPart(tier), CommentsPart(tier)] + rt.harnesses_for('C06', tier)
     # thorough: additionally three external links under all iteration orders (6^6 orders; symbolic kinds for three links
     # would be 27 times that and did not finish in 15 minutes)
-    return [Hyperlinks(tier), Hyperlinks(tier, n=3, kinds=['url'], name='hyperlink.rid_pairing.3links'), PartAllocation(tier), WorkbookPart(tier)] + rt.harnesses_for('C06', tier)
+    return [Hyperlinks(tier), Hyperlinks(tier, n=3, kinds=['url'], name='hyperlink.rid_pairing.3links'), PartAllocation(tier), WorkbookPart(tier), CommentsPart(tier)] + rt.harnesses_for('C06', tier)
 OPTIONS = {'want_smir': True}
